@@ -89,7 +89,7 @@ class C13(CheckBase):
                    'resource question, not decided here); termination is demanded after EOF',
                    'truncation offsets are enumerated completely inside the sampled window only']
     expected_probes = ['truncations', 'framing_faults', 'xml_mutations', 'doctype', 'bad_coding', 'answered', 'rejected',
-                       'consumer_endpoint', 'provider_endpoint']
+                       'consumer_endpoint', 'provider_endpoint', 'unusual_header_values']
     max_steps = 12_000_000
 
     def budget(self, tier):
@@ -394,6 +394,17 @@ class C13(CheckBase):
         cases.append(('coding-gzip-truncated', rebuild(m, body=gz[:max(12, len(gz) // 2)], headers={'Content-Encoding': 'gzip'}), True, False))
         cases.append(('coding-lz4-garbage', rebuild(m, body=b'\x04"M\x18garbage', headers={'Content-Encoding': 'x-lz4'}), True, False))
         ctx.probe('bad_coding', 4)
+        # complete, well-framed requests with unusual header values (q-values that are not numbers, empty members,
+        # unknown charsets ...): whatever the answer is, there has to be one and nothing may escape
+        weird = [('Accept-Encoding', v) for v in ('gzip;q=high', 'gzip;q=', 'identity;q=1.0.0', ';q=1', 'gzip;;', ',,,',
+                                                   'gzip; q = 0.5 ; x=y', 'gzip;q=-1', 'gzip;q=1e400', '*;q=abc, x-lz4',
+                                                   'a,' * 800)]
+        weird += [('Content-Type', 'application/soap+xml; charset=no-such-charset'), ('Content-Type', ''),
+                  ('Content-Encoding', 'identity'), ('Content-Encoding', ' '), ('Connection', 'close, keep-alive, x'),
+                  ('Expect', '100-continue'), ('Content-Length', f'+{len(m.raw_body)}'), ('Accept', 'text/*;q=x')]
+        for name, v in rng.sample(weird, 7):
+            cases.append((f'header:{name}:{v[:16]}', rebuild(m, headers={name: v}), True, False))
+            ctx.probe('unusual_header_values')
         # wrong path / content type / method
         cases.append(('wrong-path', rebuild(m, start=m.start.replace(m.path, '/no/such/path')), True, False))
         cases.append(('empty-path', rebuild(m, start=m.start.replace(m.path, '/')), True, False))
